@@ -137,6 +137,18 @@ extra11 = {
  "C15": "; two further stages (before / after the handshake) on a repository without chain split points (any network but mainnet: empty verification locator)",
  "C17": "; first starts through Load with a configured list that repeats a hash or holds two, configured hashes unmarked like any other, one configuration value handed to every instance of a history, the configured list merged again at every restart",
 }
+# additions of seed round 15
+extra15 = {
+ "C03": "; a repository of another network is created first in the process",
+ "C04": "; Cancel twice and Stop followed by Cancel at every ProcessTx call",
+ "C06": "; back pressure: 1010 deliveries while the processor's first call takes 11 s (hand-over channel of 1000)",
+ "C12": "; six-header histories over two unit-work slots with a mark before the Save / Clean that is stopped",
+ "C08": "; seven-header histories (reorganisations between a branch of a branch and an unrelated later fork)",
+ "C11": "; a side branch of many light headers taller than the heavier best chain by more than the restart keeps",
+ "C15": "; nine well-formed messages sent twice and three times in a row in three stages (Run must return)",
+ "C16": "; a source whose block arrives while the manager is inside its next call to the requestor",
+ "C20": "; books of 999..2003 peers with every range query counted against the scores, before and after Save + Load",
+}
 # additions of seed round 14
 extra14 = {
  "C03": "; verification replies handled while the repository is busy (its lock held for 1 s / 5 s / 90 s of virtual time): verified exactly for the BSV split header however long the handler waits",
@@ -178,6 +190,8 @@ for k, v in extra12.items():
 for k, v in extra13.items():
     checks[k]["text"] += v
 for k, v in extra14.items():
+    checks[k]["text"] += v
+for k, v in extra15.items():
     checks[k]["text"] += v
 for k, v in extra.items():
     checks[k]["text"] += v
